@@ -50,6 +50,35 @@ def __formal_names(params):
     ]
 
 
+def get_bound_symbols(node):
+    """Return the symbols bound by binders within ``node``."""
+    res = []
+    for n in nodes.dfs(node):
+        if not n.has_ident() or len(n) < 3:
+            continue
+        if n.get_ident() in ['let', 'forall', 'exists', 'lambda']:
+            if not n[1].is_leaf():
+                res.extend(v[0] for v in n[1]
+                           if not v.is_leaf() and len(v) > 0)
+        elif n.get_ident() == 'match' and not n[2].is_leaf():
+            for case in n[2]:
+                if not case.is_leaf() and len(case) > 0:
+                    res.extend(p for p in nodes.dfs(case[0]) if p.is_leaf())
+    return res
+
+
+def __instantiate(cmd, args):
+    """Return the body of the function definition ``cmd`` with its formal
+    parameters replaced by ``args``, or None if a binder within the body binds
+    a formal parameter again or would capture a symbol of ``args``."""
+    formals = [cmd[2][i][0] for i in range(len(args))]
+    bound = get_bound_symbols(cmd[4])
+    if any(f in bound for f in formals) or any(
+            n.is_leaf() and n in bound for a in args for n in nodes.dfs(a)):
+        return None
+    return nodes.substitute(cmd[4], dict(zip(formals, args)))
+
+
 def collect_information(exprs):  # noqa: C901
     """Initialize global lookups for first-order constants, defined functions
     and sorts of all these symbols."""
@@ -113,9 +142,7 @@ def collect_information(exprs):  # noqa: C901
             if cmd[2] == tuple():
                 __constants[cmd[1]] = cmd[3]
             __defined_functions[cmd[1]] = (len(
-                cmd[2]), lambda args, cmd=cmd: nodes.substitute(
-                    cmd[4], {cmd[2][i][0]: args[i]
-                             for i in range(len(args))}))
+                cmd[2]), lambda args, cmd=cmd: __instantiate(cmd, args))
             __definition_node_ids.add(cmd[1].id)
             __definition_node_ids.add(cmd[4].id)
             __sort_lookup[cmd[1].data] = cmd[3]
@@ -950,7 +977,9 @@ def get_defined_fun(node):
         return func([])
     arity, func = __defined_functions[node.get_ident()]
     if arity == len(node[1:]):
-        return func(node[1:])
+        res = func(node[1:])
+        if res is not None:
+            return res
     return node
 
 
